@@ -657,12 +657,18 @@ func writeEvidence(p *Parent, agg *Agg, nViol, nKnown int) {
 		cov["distinct_"+k] = v
 	}
 	cov["evaluations"] = agg.Evaluated
-	if o, ok := agg.Counters["evaluations_override"]; ok {
-		cov["evaluations"] = o // checks whose unit of work is finer than the sharded case (e.g. one generation step)
-		delete(cov, "n_evaluations_override")
-	}
 	dn := agg.Distinct["nontrivial"]
 	cov["distinct_nontrivial"] = dn
+	if o, ok := agg.Counters["evaluations_extra"]; ok {
+		// checks whose unit of work is finer than the sharded case (a batch of configurations, a history, a schedule)
+		cov["evaluations"] = agg.Evaluated + o
+		delete(cov, "n_evaluations_extra")
+	}
+	if o, ok := agg.Counters["distinct_nontrivial_extra"]; ok {
+		// units that are distinct by construction (DFS schedules) and counted inside a probe
+		cov["distinct_nontrivial"] = int64(dn) + o
+		delete(cov, "n_distinct_nontrivial_extra")
+	}
 	cov["rule"] = ch.Rule
 	samples := []any{}
 	for i, s := range agg.Samples {
